@@ -389,6 +389,22 @@ func c18Exec(c Case) (outs []string, fails []Failure, tags []string) {
 					}
 				}
 			}
+			// "the hash recorded in the message always equals the Ethereum hash": a hand-built envelope that spells the right
+			// hash differently (upper case, 0X, extra leading bytes) must not pass the message's own validation
+			for _, sp := range []struct{ how, h string }{
+				{"upper-case", "0x" + strings.ToUpper(tx.Hash().Hex()[2:])}, {"0X-prefix", "0X" + tx.Hash().Hex()[2:]},
+				{"leading-bytes", "0xdeadbeef" + tx.Hash().Hex()[2:]}, {"no-prefix", tx.Hash().Hex()[2:]}} {
+				m3 := &evmtypes.MsgEthereumTx{}
+				if m3.FromEthereumTx(tx) != nil {
+					break
+				}
+				m3.Hash = sp.h
+				if e := m3.ValidateBasic(); e == nil && m3.Hash != tx.Hash().Hex() {
+					fl("C18:recorded-hash:other-spelling-accepted", fmt.Sprintf("a message recording the hash as %q (%s) passes ValidateBasic; the Ethereum hash is %s", sp.h, sp.how, tx.Hash().Hex()))
+					break
+				}
+			}
+			tags = append(tags, "recorded-hash-spellings")
 			bin1, _ := tx.MarshalBinary()
 			bin2, _ := tx2.MarshalBinary()
 			if string(bin1) != string(bin2) {
